@@ -196,3 +196,46 @@ pub fn is_o7<T>(v: (u8, u8), r: &Res<T>) -> bool {
         && !L::gte(v, (3, 7))
         && matches!(r, Res::Caught(Caught::Panic { msg, .. }) if msg.contains("StructArray must contain at least one field"))
 }
+
+use crate::pipeline::{read_slp, read_slp_noopts};
+use peppi::game::immutable::Game;
+
+/// S1 first leg: read the recorded file through the scheduled stream. `Ok(None)` =
+/// the read surfaced an injected Interrupted (allowed by the relaxed rule).
+pub fn s1_read(prop: &str, spec: &ScenarioSpec, m: &Model, ctx: &mut Ctx, use_opts: bool) -> Result<Option<Game>, Violation> {
+    let edges = m.edges();
+    let mut ro = if use_opts { read_slp(&m.bytes, &spec.stream, &edges, spec.opts) } else { read_slp_noopts(&m.bytes, &spec.stream, &edges) };
+    note_read(ctx, &mut ro);
+    match ro.res {
+        Res::Ok(g) => {
+            ctx.check();
+            Ok(Some(g))
+        }
+        Res::Err(e, k) => {
+            if ro.interrupted_returned && k == Some(std::io::ErrorKind::Interrupted) {
+                ctx.skip("read surfaced Interrupted (allowed)");
+                return Ok(None);
+            }
+            Err(Violation::new(prop, "unexpected-err", "slippi::read", crate::report::short(&e, 200)))
+        }
+        Res::Caught(c) => Err(caught_violation(prop, "slippi::read", &c)),
+    }
+}
+
+pub fn gen_live(rng: &mut crate::prng::Rng, approx_len: usize, drop_pct: u64) -> LiveSpec {
+    let chunking = match rng.below(10) {
+        0..=3 => Chunking::Event,
+        4..=6 => Chunking::Frame,
+        _ => Chunking::Flush(*rng.pick(&[1u32, 7, 64, 512, 4096])),
+    };
+    let chunking = match chunking {
+        Chunking::Flush(n) if approx_len > 100_000 && n < 64 => Chunking::Flush(512),
+        c => c,
+    };
+    let drop_at = if rng.below(100) < drop_pct { Some(rng.below(approx_len.max(1) as u64)) } else { None };
+    LiveSpec { chunking, pseed: rng.next_u64(), drop_at }
+}
+
+pub fn fail_v(prop: &str, f: crate::oracle::Fail) -> Violation {
+    Violation::new(prop, &f.0, f.1, f.2)
+}
